@@ -186,6 +186,7 @@ type ProxyOpts struct {
 	TLSHandshakeTimeout time.Duration
 	ConnectTimeout     time.Duration
 	DialTimeout        time.Duration
+	ShortDial          bool // (fault laboratory) short dial time-out, two attempts
 	ShutdownTimeout    time.Duration
 	ShutdownSignals    []os.Signal // signals that abort the drain (forwarder's default: INT, TERM, QUIT)
 
